@@ -610,6 +610,8 @@ func init() {
 			lap("h")
 			c04partD(c)
 			lap("d")
+			c04partW(c)
+			lap("w")
 		},
 		Replay: c04replay,
 	})
@@ -623,6 +625,9 @@ func c04replay(c *Ctx, raw json.RawMessage) {
 	}
 	var k, w string
 	switch cs.Part {
+	case "w":
+		k, w = c04wideCheck(cs.Newick, cs.N)
+		fmt.Printf("wide tree (second copy re-rooted at tip %d): %s\n", cs.N, cs.Newick)
 	case "a":
 		r := c04runSeq(cs.Newick, cs.Ops, cs.Rng, false)
 		k, w = r.key, r.what
